@@ -7,7 +7,7 @@ CONSTANTS
   Prefills <- MCPrefills
   Batches <- MCBatches
   Ids = {1}
-  Ops = {"NewEmpty", "NewFilled", "Fill", "FillN"}
+  Ops = {"NewEmpty", "NewFilled", "Fill", "FillN", "FillRefused"}
   MaxDepth = 3
 CHECK_DEADLOCK FALSE
 INVARIANT NothingMissed
